@@ -224,6 +224,7 @@ METHODS = {
     'TrajectoryMetrics': [('speed', [()]), ('particle_density', [()]), ('mol_per_liter', [()]), ('tracer_diffusivity', [{'dimensions': 1}, {'dimensions': 3}]),
                           ('tracer_conductivity', [{'z_ion': 1, 'dimensions': 3}, {'z_ion': 2, 'dimensions': 2}]), ('attempt_frequency', [()]), ('vibration_amplitude', [()]),
                           ('amplitudes', [()]), ('haven_ratio', [{'dimensions': 3}]), ('tracer_diffusivity_center_of_mass', [{'dimensions': 3}])],
+    'Trajectory': [('metrics', [()]), ('mean_squared_displacement', [()]), ('distances_from_base_position', [()]), ('center_of_mass', [()]), ('drift', [()]), ('to_volume', [(1.5,)])],
     'Collective': [('site_pair_count_matrix', [()]), ('site_pair_count_matrix_labels', [()]), ('multiple_collective', [()])],
 }
 
@@ -243,6 +244,8 @@ class RealMachine(LogMachine):
 
         case = self.systems[k % len(self.systems)]
         traj = sitesys.full_trajectory(case)
+        if kind == 'Trajectory':
+            return traj
         if kind == 'TrajectoryMetrics':
             return TrajectoryMetrics(traj.filter('Li'))
         tr = gcall(traj.transitions_between_sites, sitesys.sites(case), 'Li', site_radius=sitesys.radius_arg(case), site_inner_fraction=case['inner_fraction'])
@@ -275,8 +278,17 @@ class RealMachine(LogMachine):
         meth = getattr(o, name)
         got = gcall(meth, *a, **kw, allow=(ValueError, ZeroDivisionError, IndexError, KeyError))
         got2 = gcall(meth, *a, **kw, allow=(ValueError, ZeroDivisionError, IndexError, KeyError))
-        unc = gcall(getattr(type(o), name).__wrapped__, o, *a, **kw, allow=(ValueError, ZeroDivisionError, IndexError, KeyError))
         self.cached.add(h)
+        if kind == 'Trajectory':
+            # analysis entry points of the trajectory itself: exercised (through the returned metrics object as well) so that
+            # any memoisation behind them is populated; what is checked for them is that the trajectory can still die
+            if name == 'metrics':
+                gcall(got.tracer_diffusivity, dimensions=3)
+                gcall(got.speed)
+            wrapped = getattr(getattr(type(o), name), '__wrapped__', None)
+            if wrapped is None or name == 'metrics':
+                return name
+        unc = gcall(getattr(type(o), name).__wrapped__, o, *a, **kw, allow=(ValueError, ZeroDivisionError, IndexError, KeyError))
         if not deep_equal(got, unc) or not deep_equal(got2, unc):
             raise Violation('cached-equals-uncached', f'{kind}.{name}{args}: cached value differs from an uncached recomputation on the same object (system {k}; {len(self.live)} live objects; id reuse so far {self.flags["id_reuse"]})')
         # a fresh twin built from the same system must give the same value too (nothing leaked in from another object)
@@ -349,7 +361,7 @@ class RealMachine(LogMachine):
                 ok.append(c)
         self.step({'op': 'init', 'systems': ok})
 
-    @rule(k=st.integers(0, 5), kind=st.sampled_from(['Transitions', 'Jumps', 'Jumps', 'TrajectoryMetrics', 'Collective']))
+    @rule(k=st.integers(0, 5), kind=st.sampled_from(['Transitions', 'Jumps', 'Jumps', 'TrajectoryMetrics', 'Collective', 'Trajectory']))
     def r_new(self, k, kind):
         self.step({'op': 'new', 'k': k, 'kind': kind})
 
@@ -386,6 +398,6 @@ SUBS = [
         rule='RuleBasedStateMachine on a synthetic class with three weak_lru_cache methods (default size, maxsize=4, mutable result): create / call(args, kwargs) / drop / gc / drop-then-create (address reuse measured via id) / bursts of 130-200 objects; every value must carry this object\'s payload and equal __wrapped__; dropped objects must die',
         n={'quick': 25, 'thorough': 400}, shards={'quick': 8, 'thorough': 16}, steps={'quick': 40, 'thorough': 60}),
     Sub(name='analysis-objects', kind='machine', run=run_real, machine=lambda tier: RealMachine,
-        rule='RuleBasedStateMachine on real Transitions / Jumps / TrajectoryMetrics / Collective objects built from 2-3 generated systems: every cached method with varying arguments vs method.__wrapped__, drop + gc (weakref must be dead), drop-then-create, bursts of 135 metrics objects',
+        rule='RuleBasedStateMachine on real Trajectory / Transitions / Jumps / TrajectoryMetrics / Collective objects built from 2-3 generated systems: every cached method with varying arguments vs method.__wrapped__, drop + gc (weakref must be dead), drop-then-create, bursts of 135 metrics objects',
         n={'quick': 6, 'thorough': 100}, shards={'quick': 12, 'thorough': 16}, steps={'quick': 25, 'thorough': 40}),
 ]
